@@ -53,8 +53,13 @@ def run(c):
         "error value, dial failure, greeting / EHLO / MAIL / RCPT / DATA / end-of-data reply of a scripted server parsed by the real go-smtp client; every order of "
         "temporary / permanent / unclassified failures over 1-3 candidates) through the real remote AddRcpt / newConn / lookupMX / BodyNonAtomic; the same for the "
         "endpoints and LMTP statuses of target.smtp / target.lmtp; multipleErrs; each resulting VALUE then through the real wrapErr and toSMTPErr; "
+        "histories of 1-6 delivery attempts for one recipient through the REAL queue (tryDelivery / deliver / emitDSN; every sequence of 1-3 failures over "
+        "temporary / permanent x annotated / unannotated / unclassified, random beyond; the failure at Start / AddRcpt / Body / a BodyNonAtomic status / Commit; "
+        "attempt bound 1-5; restarts between attempts), the .meta record read after EACH attempt and the failure report handed to the bounce pipeline parsed with the "
+        "stdlib; the real dsn.GenerateDSN on stored errors of both classes, 1-3 recipient groups, every action; "
         "distinct = distinct op lines",
-        explanation="theorems over all error trees, all client errors, all lists of per-MX / per-endpoint outcomes + decide over the regenerated literal table; "
+        explanation="theorems over all error trees, all client errors, all lists of per-MX / per-endpoint outcomes, all histories of attempts (any length, any attempt "
+        "bound, any starting state) and all lists of stored errors in a report + decide over the regenerated literal table; "
         "model tied to the code by differential runs (the real error values are abstracted into model terms node by node and compared)",
         search=search,
     )
